@@ -2,6 +2,7 @@ import TakVerif.Props.C20
 import TakVerif.Props.C20_size4
 import TakVerif.Props.C20_size5
 import TakVerif.Proofs.Glue
+import TakVerif.Proofs.Reach
 import TakVerif.Proofs.ApplyCfg
 import TakVerif.Proofs.HashInv
 
@@ -355,6 +356,49 @@ theorem friendly_move_legal_4x4_5x5 (var : Variant) (hv : var ≠ .center) (colo
     (ans : Move) (hsearch : a.searches = true → (Spec.step t.cur (Spec.decode ans)).isSome = true) :
     a.returned ans = zeroMove ∨ (Spec.step t.cur (Spec.decode (a.returned ans))).isSome = true :=
   friendly_move_legal var color size 6 (holds_4x4_5x5 var hv color hc size hs) k hk t hreach g p o f' a hcol hview hmv hprev h ans hsearch
+
+/-- the bit-level call `(g, p)` of `GetMove` shows the state `t` of the opening game: `p` is well-formed and abstracts
+to `t.cur`; the record's previous pair is (a well-formed position abstracting to `t`'s previous position, the same
+move), or there is none in both -/
+structure Abstracts (basis : Array W) (g : GameRec) (p : Pos) (color : Color) (t : St Spec.State) : Prop where
+  color : g.color = color
+  wf : WF basis p
+  cur : Spec.abs p = t.cur
+  prev : match t.prev with
+    | none => prevViews g = none
+    | some (s, m) => ∃ q, prevOf g = .ok (q, m) ∧ WF basis q ∧ Spec.abs q = s
+
+/-- `friendly_move_legal` with the link to the bit-level record spelled out (`Abstracts`, through
+`viewOfPos_abs`: a well-formed position and its abstraction show the rule code the same board) -/
+theorem friendly_move_legal_abs (basis : Array W) (var : Variant) (color : Color) (size horizon : Nat)
+    (hH : Holds var color size horizon) (k : Nat) (hk : k ≤ horizon) (t : St Spec.State)
+    (hreach : Reach specBoard var color k (init size) t)
+    (g : GameRec) (p : Pos) (o : CheckOracle) (f' : Option (Variant × Rule)) (a : Action)
+    (habs : Abstracts basis g p color t)
+    (h : Glue.friendlyGetMove (some (var, t.rule)) g p o = .ok (f', a))
+    (ans : Move) (hsearch : a.searches = true → (Spec.step (Spec.abs p) (Spec.decode ans)).isSome = true) :
+    a.returned ans = zeroMove ∨ (Spec.step (Spec.abs p) (Spec.decode (a.returned ans))).isSome = true := by
+  rw [habs.cur] at hsearch ⊢
+  refine friendly_move_legal var color size horizon hH k hk t hreach g p o f' a habs.color ?_ ?_ ?_ h ans hsearch
+  · rw [viewOfPos_abs habs.wf, habs.cur]
+  · rw [← habs.cur]; rfl
+  · have hp := habs.prev
+    cases htp : t.prev with
+    | none => rw [htp] at hp; simpa using hp
+    | some sm =>
+      obtain ⟨s, m⟩ := sm
+      rw [htp] at hp
+      obtain ⟨q, hq, hwf, hs⟩ := hp
+      simp only [prevViews, hq, Option.map_some]
+      rw [viewOfPos_abs hwf, hs]
+
+/-- `Abstracts` is satisfiable: the start of a game on 5×5, any Zobrist table -/
+example (basis : Array W) : ∃ p0, Pos.new (friendlyConfig true 5) = .ok p0 ∧
+    Abstracts basis { color := .white, size := 5, positions := [p0], moves := [] } p0 .white (init 5) := by
+  obtain ⟨p0, hp⟩ : ∃ p0, Pos.new (friendlyConfig true 5) = .ok p0 := ⟨_, rfl⟩
+  refine ⟨p0, hp, rfl, Tak.new_wf basis hp, ?_, rfl⟩
+  obtain ⟨_, _, rfl⟩ := Tak.new_ok hp
+  decide +kernel
 
 /-- the full statement (sizes 6..8 for double stack and cairn are covered by the exhaustive correspondence of
 C20, not by a kernel evaluation: `C20.fpa_doubleStack_statement`, `fpa_cairn_statement`) -/
